@@ -116,10 +116,11 @@ def message_nodes(ref, which='required', top=True):
 
 
 def _force_first(ref):
+    """content for a required group whose members are all optional: its first member - a group with what THAT group requires"""
     for (name, cref, (mn, mx), kind) in ref[1]:
         if kind == 'SEG':
             return [('SEG', name)]
-        inner = _force_first(cref)
+        inner = message_nodes(cref, 'required', False) or _force_first(cref)
         if inner:
             return [('GRP', name, inner)]
     return []
